@@ -22,6 +22,9 @@ TEXTS = ['plain text', ' padded ', '(note)', '<tech>', '(half', 'half>', 'Ünïc
          '', None, '\t', 'line1\nline2', '  (  spaced note )  ', 'x' * 40]
 
 
+SPECIAL_IDS = ["O'NEILL", 'say "x"', 'a]b', '[1]', 'a=b', '*', '.', '..', 'a/b', '@id', '{ns}x', 'a b', "x'y\"z", '-', 'None', '%s', '{0}', '&amp;', '<x>', 'é', '𝄞']
+
+
 class Gen:
     def __init__(self, rng, odd_message_ids=False):
         self.rng = rng
@@ -41,6 +44,12 @@ class Gen:
             return r.choice([base + ' ', ' ' + base, base + '\n', base.swapcase(), base + ',x', 'x,' + base])
         if c < 0.065:
             return BLANK
+        if c < 0.1:
+            # characters that matter to XPath predicates, format strings, paths and XML escaping
+            self.n += 1
+            v = r.choice(SPECIAL_IDS) + str(self.n)
+            issued.append(v)
+            return v
         self.n += 1
         v = f'{prefix}{self.n}'
         issued.append(v)
@@ -93,6 +102,11 @@ class Gen:
             out.append(self.new_item())
         if r.random() < 0.5:
             out.append(B.p(r.choice(TEXTS)))
+        if r.random() < 0.25:
+            # mixed content: text between the children (tails)
+            for c in out:
+                if r.random() < 0.6:
+                    c[3] = r.choice([' tail text ', '\n    ', 'Ünï', ' & ', 'x'])
         if r.random() < 0.2:
             out.append(E('storyNum', text='4', tail='\n   '))
         if r.random() < 0.12:
